@@ -42,7 +42,10 @@ ENTRY = dict(
                    "function clause is). Parameter binding is not modelled. "
                    "NOT PROVED (correspondence only): that Qiskit's Statevector is the Born instrument; the model is instantiated with an exact "
                    "Q(sqrt2)(i) simulator written in Coq (12 gates) and compared with the implementation on ~1000 generated circuits per run as "
-                   "finite maps (key sets exactly, probabilities within 1e-12), and every case also with an independent numpy density-matrix simulator.",
+                   "finite maps (key sets exactly, probabilities within 1e-12), and every case also with an independent numpy density-matrix simulator. "
+                   "A targeted 'nearbranch' stream (48 / 600 circuits, oracle only, 1e-9) puts branches with close but unequal states (a controlled "
+                   "rotation by 1e-7 .. 3e-5 about a random axis, control then reset or measured-reset-remeasured into the same bit) under ONE "
+                   "classical key and measures the rotated qubit, so that any merging / identification of branch states up to a tolerance shows.",
         level_text_ext="QSim instance: c13_qsim_p1_clamped holds by the clamp in qp1's definition (it only discharges the premise 0<=p1<=1). "
                    "c13_qsim_born_step: for every vector and qubit, qproj (the projection by definition) has squared norm |P_b v|^2; "
                    "|P0 v|^2+|P1 v|^2=|v|^2 exactly; UNDER the per-state audit bit p1=|P1 v|^2/|v|^2 unclamped; q2div is division when c^2-2d^2<>0. "
